@@ -69,7 +69,7 @@ Definition set_field_norm (o : nopts) (cfg : value) (name : string) (ov : option
          | OutOfModel => OutOfModel
          end ;;
   if negb (is_nil old) && is_nil (Some val) then Ok cfg
-  else if is_nil old then set_path p "" cfg ov val
+  else if is_nil old then set_path (p_maxIdx (n_p o)) p "" cfg ov val
   else match old, val with
        | Some (VSub d a), VSub d2 a2 =>
          (* both are sub-configs: merged silently (with the options of the call) *)
